@@ -3,12 +3,15 @@
    schema definition by definition, parameter by parameter; random behaviours (tlc -simulate)
    give schemas with enums (types whose constructors have no parameters), single- and
    multi-constructor types, constructor names that clash with their type name, dotted namespaces,
-   every primitive, conditional parameters on bits {0, 1, 31} including shared bits and `true`
-   flags, the flags word at any position before the first conditional parameter, vectors of every
-   element kind, and functions returning an object, Bool, Vector<int> or Vector<T>.
+   every primitive, conditional parameters on the bits BitsU (a constant the check rotates over
+   0..31) including shared bits and `true` flags, the flags word at any position before the
+   first conditional parameter, vectors of every element kind, 0..7 parameters (tlgen passes up
+   to 5 positionally), parameter names that need mangling or collide with Go keywords, and
+   functions returning an object, an enum, Bool, Vector<int> or Vector<T>.
 
-   The finished schema (a sequence of definitions) is printed as JSON; the harness renders it as
-   .tl text and compares what tlparser.ParseSchema and tlgen make of it with SchemaDefs!T. *)
+   The finished schema (a sequence of definitions) is printed as JSON together with Xlate(schema) -
+   what the generated package must declare for it; the harness renders the schema as .tl text and
+   compares what tlparser.ParseSchema and tlgen make of it with the definitions and with Xlate. *)
 EXTENDS Integers, Sequences, FiniteSets, TLC, Json
 
 Types == <<"Foo", "ns.Item", "Baz", "Color">>
